@@ -749,3 +749,5 @@ v("c19-select-rows-returns-lookup", "C19", PB,
   "        res = data_map[op.sources[0].table_name] if op.sources[0].node_name == \"TableDescription\" else self._eval_value_source(op.sources[0], data_map=data_map)\n        if res.shape[0] < 1:\n            return res\n        selection = op.expr.act_on(res, expr_walker=self)")
 v("c05-sqlite-round-two-args", "C05", "SQLite.py",
   "    \"remainder\": _sqlite_remainder_expr,\n", "    \"remainder\": _sqlite_remainder_expr,\n    \"around\": lambda dbmodel, expression: \"ROUND(\" + dbmodel.expr_to_sql(expression.args[0]) + \", \" + dbmodel.expr_to_sql(expression.args[1]) + \")\",\n")
+v("c07-pipeline-hands-arrow-back", "C07", VR,
+  "            if isinstance(b, data_algebra.arrow.DataOpArrow):\n                # arrow >> pipeline: the pipeline comes after the arrow, compose as arrows\n                return data_algebra.arrow.DataOpArrow(self).act_on(b)\n", "")
